@@ -348,7 +348,12 @@ fn eval_loc_expr(
                     }
                 }
             }
-            //collected.dedup();
+            // the result of a step is a node-set: without this `/a/b/../b/../b` doubles the list at every
+            // repetition (attribute and namespace nodes are left to the final pass)
+            let mut set = HashSet::new();
+            collected.retain(|v| {
+                matches!(v, dom::XmlNode::Attribute(_) | dom::XmlNode::Namespace(_)) || set.insert(v.order())
+            });
             nodes = collected;
         }
     }
